@@ -2,8 +2,8 @@
   FcProofs.Witness.C19 — non-vacuity examples and negation witnesses for the C19 theorems.
 -/
 import FcProofs.Props.C19
-namespace Fc.WitnessC19
-open Fc
+namespace Fc.C19.Witness
+open Fc Fc.C19
 
 /-! ### effect summaries -/
 
@@ -96,4 +96,4 @@ def bad : LadderOps (Nat × Nat) (Bool × Nat) where
 
 example : (rerun bad ⟨false, false⟩ 2 ⟨(0, 3), (0, 3)⟩).map (·.1) = [false, true] := by decide
 
-end Fc.WitnessC19
+end Fc.C19.Witness
